@@ -34,7 +34,35 @@ Lemma warning_line_src_eq l p : warning_line_src l p = match l with Some x => x 
 Proof. unfold warning_line_src. destruct l; reflexivity. Qed.
 
 Lemma include_startline0_eq s : include_startline0_src s = match s with Some x => x | None => 0%Z end.
-Proof. unfold include_startline0_src. destruct s; reflexivity. Qed.
+Proof. unfold include_startline0_src. destruct s as [x|]; [|reflexivity]. destruct (Z.eqb_spec x 0); lia. Qed.
+
+(* the other mock methods: block_quote hands its offset on unchanged, the attribution (body index i, i.e. source line
+   position + 1 + offset + i) gets that line for its node and for the warnings of its text; get_source_and_line;
+   parse_directive_block *)
+Lemma mock_methods_src :
+  (forall position off, block_quote_lineno position off = (position + off)%Z) /\
+  (forall position off i, (0 <= i)%Z -> attribution_node_line position off i = (position + 1 + off + i)%Z) /\
+  (forall position off i, (0 <= i)%Z -> attribution_text_line position off i = (position + 1 + off + i)%Z) /\
+  (forall lineno position, (0 < lineno)%Z -> source_line (Some lineno) position = lineno) /\
+  (forall position, source_line None position = position) /\
+  (forall lo bo, directive_block_offset lo bo = (lo + bo)%Z).
+Proof.
+  unfold block_quote_lineno, attribution_node_line, attribution_text_line, inline_text_line, source_line,
+    directive_block_offset, nested_parse_lineno_src, block_quote_offset_src, attribution_line_src, attribution_lineno_src,
+    inliner_lineno_src, token_line_src, render_tokens_map0_src, nested_map0_src, source_and_line_src,
+    directive_block_offset_src.
+  repeat split; intros; try lia.
+  - destruct (Z.eqb_spec i 0); lia.
+  - destruct (Z.eqb_spec i 0); lia.
+  - destruct (Z.eqb_spec lineno 0); lia.
+Qed.
+
+(* open finding line:directive-title:+1, characterised: the inline text of a title written on the directive's own line
+   [position] is reported at exactly position + 1 *)
+Lemma title_text_line_eq position : title_text_line position = (position + 1)%Z.
+Proof.
+  unfold title_text_line, inline_text_line, inliner_lineno_src, token_line_src, render_tokens_map0_src, nested_map0_src. lia.
+Qed.
 
 Lemma include_advance_eq s t i n :
   include_advance_src s t i n = (s + Z.of_nat (count_nl (firstn (Z.to_nat (i + Z.of_nat (length n))) t)))%Z.
